@@ -8,6 +8,7 @@ import (
 	"context"
 	"encoding/json"
 	"fmt"
+	"math"
 	"math/rand"
 	"os"
 	"path/filepath"
@@ -25,6 +26,8 @@ func init() { commands["levels"] = cmdLevels }
 
 var (
 	lvAudit = log.RegisterLevel(250, "AUDIT")
+	// the lowest code there is (log4j's ALL): orderings computed by subtraction overflow here
+	lvAbyss = log.RegisterLevel(math.MinInt32, "ABYSS")
 	lvTop   = log.RegisterLevel(998, "TOP")
 	// user-registered aliases: a second name for an existing code
 	_ = log.RegisterLevel(400, "WARNING")
@@ -43,7 +46,7 @@ func lvName(rng *rand.Rand, l log.Level) string {
 }
 
 // concrete levels in increasing code order; the last one is MAX
-var concLevels = []log.Level{log.NoneLevel, log.TraceLevel, log.DebugLevel, lvAudit, log.InfoLevel,
+var concLevels = []log.Level{lvAbyss, log.NoneLevel, log.TraceLevel, log.DebugLevel, lvAudit, log.InfoLevel,
 	log.WarnLevel, log.ErrorLevel, log.PanicLevel, log.FatalLevel, lvTop, log.MaxLevel}
 
 type lvRange struct {
@@ -75,7 +78,7 @@ func randCase(rng *rand.Rand, s string) string {
 	return s
 }
 
-// pickMapping chooses an order-preserving map of the abstract points 0..top-1 into the ten
+// pickMapping chooses an order-preserving map of the abstract points 0..top-1 into the
 // concrete non-MAX levels; top maps to MAX.  When warnPt >= 0 that point is pinned to WARN.
 func pickMapping(rng *rand.Rand, top, warnPt int) []log.Level {
 	n := len(concLevels) - 1 // candidates
@@ -83,16 +86,22 @@ func pickMapping(rng *rand.Rand, top, warnPt int) []log.Level {
 		idx := rng.Perm(n)[:top]
 		sort.Ints(idx)
 		if warnPt >= 0 {
-			// pin: choose warnPt points below WARN (index 5) and the rest above
-			below := rng.Perm(5)[:warnPt]
+			// pin: choose warnPt points below WARN and the rest above
+			wi := 0
+			for i, l := range concLevels {
+				if l == log.WarnLevel {
+					wi = i
+				}
+			}
+			below := rng.Perm(wi)[:warnPt]
 			sort.Ints(below)
-			above := rng.Perm(4)[:top-warnPt-1]
+			above := rng.Perm(n - wi - 1)[:top-warnPt-1]
 			sort.Ints(above)
 			idx = idx[:0]
 			idx = append(idx, below...)
-			idx = append(idx, 5)
+			idx = append(idx, wi)
 			for _, a := range above {
-				idx = append(idx, 6+a)
+				idx = append(idx, wi+1+a)
 			}
 		}
 		m := make([]log.Level, top+1)
